@@ -103,6 +103,28 @@ Proof.
     destruct Hb as [<-|[<-|[<-|[]]]]; vm_compute; reflexivity.
 Qed.
 Print Assumptions today_chain_walk_every_entry_spec.
+(* ... also when some members are today's RawFileSystem (what it lists: raw_walk_relmode; what reaches _resolve_path:
+   raw_get_ops / raw_walk_ops - the same operations, checked here), on folders that are exact for those members *)
+Definition gen_gmember (folder : str) (m : member) : Prop :=
+  gen_member m \\/
+  exists fs p, m = raw_member_of raw_walk_relmode raw_walk_ops fs p /\\ clean_fs fs = true
+               /\\ NoDup (map (fun e => nkey (fst e)) fs) /\\ okp p /\\ folder_exact fs p folder.
+Theorem today_chain_walk_with_directory_members : forall ms folder x,
+  raw_get_ops = raw_walk_ops ->
+  Forall (gen_gmember folder) ms -> okp folder ->
+  In x (chain_walk_mode chain_dedup_mode chain_relmode chain_dedup_ops ms folder) ->
+  chain_get ms (fst x) = Some (snd x).
+Proof.
+  intros ms folder x _ Hms Hf Hin.
+  apply (c19_chain_walk_with_directory_members chain_dedup_ops ms folder x); [vm_compute; reflexivity|exact Hf| |exact Hin].
+  eapply Forall_impl; [|exact Hms]. intros m [[b [fs [p [Hb [-> [Hc Hp]]]]]]|[fs [p [-> [Hc [Hn [Hp Hx]]]]]]].
+  - left. exists b, fs, p. split; [reflexivity|].
+    destruct Hb as [<-|[<-|[<-|[]]]]; (split; [vm_compute; reflexivity|]); (split; [vm_compute; reflexivity|]); split; assumption.
+  - right. exists raw_walk_relmode, raw_walk_ops, fs, p. split; [reflexivity|].
+    split; [vm_compute; reflexivity|]. split; [vm_compute; reflexivity|]. repeat split; assumption.
+Qed.
+Print Assumptions today_chain_walk_with_directory_members.
+Example today_raw_get_and_walk_ops_agree : raw_get_ops = raw_walk_ops. Proof. vm_compute. reflexivity. Qed.
 '''
 
 INSTANCE_THEOREM_FORMS = '''Import ListNotations.
@@ -1685,7 +1707,7 @@ def run(ck: Ck) -> None:
         from concurrent.futures import ThreadPoolExecutor
         pool = ThreadPoolExecutor(max_workers=3)
         fut_thm = pool.submit(ck.theorems, 'Props/C19.v')      # Print Assumptions of every theorem (its obligations are moved to the front below)
-        fut_compose = pool.submit(ck.coq_scratch, ''.join(f'Require Import {i}.\n' for i in IMPORTS + ['SV.SM.FsChainProofs', 'SV.SM.FsChainCompose', 'SV.SM.FsChainFormsProofs', 'SV.SM.FsChainWhole', 'SV.Props.C19'])
+        fut_compose = pool.submit(ck.coq_scratch, ''.join(f'Require Import {i}.\n' for i in IMPORTS + ['SV.SM.FsChainProofs', 'SV.SM.FsChainCompose', 'SV.SM.FsChainFormsProofs', 'SV.SM.FsChainWhole', 'SV.SM.FsChainAdd', 'SV.SM.FsChainWalkGen', 'SV.Props.C19'])
                                   + INSTANCE_THEOREM, 'inst_compose', 300)
         fut_forms = pool.submit(ck.coq_scratch, ''.join(f'Require Import {i}.\n' for i in IMPORTS + ['SV.SM.FsChainProofs', 'SV.SM.FsChainCompose', 'SV.SM.FsChainFormsProofs', 'SV.SM.FsChainWhole', 'SV.SM.FsChainReadProofs', 'SV.SM.FsChainMixed', 'SV.SM.FsChainAdd', 'SV.Props.C19'])
                                 + INSTANCE_THEOREM_FORMS, 'inst_forms', 300)
@@ -1729,7 +1751,7 @@ def run(ck: Ck) -> None:
         # de-duplicates by skipping, lists prefix-relative names and every backend form is sound)
         rc, out = fut_compose.result()
         ck.obligation('instance-theorem:chain_walk_lookup_closed', rc == 0,
-                      'c19_chain_walk_lookup_closed and c19_chain_walk_every_entry_spec applied to chain_walk_mode chain_dedup_mode '
+                      'c19_chain_walk_lookup_closed, c19_chain_walk_every_entry_spec and c19_chain_walk_with_directory_members (raw_walk_relmode, raw_walk_ops) applied to chain_walk_mode chain_dedup_mode '
                       'chain_relmode chain_dedup_ops over members built from virtual_cfg / zip_cfg / vpk_cfg' + ('' if rc == 0 else ': ' + out[-400:]))
         rc, out = fut_forms.result()
         ck.obligation('instance-theorem:chain_exists_and_vpk_bytes', rc == 0,
